@@ -1,4 +1,5 @@
 import AkVerif.Lemmas.TemplatesDenote
+import AkVerif.Lemmas.TemplatesJsonPlain
 /-!
 # C05 — list, map and sequence templates return exactly the denoted items
 
@@ -225,6 +226,29 @@ theorem nesting_every_derivation (G : JsonG) (P : Prods) (hP : JsonP G P) (l : B
   obtain ⟨r, hr, he⟩ := den_clean G _ _ d hd
   exact ⟨d, r, hd, hr, he⟩
 
+/-- **End to end for the json-like grammar — partial.**
+Full statement (kept visible, *not* proved in this generality): "for every grammar built from the templates, every
+option combination, both `smart_factorization` values and every nested data `d`: `parse(render(d)).value == d`".
+Proved here, with the constructor, the parse loop and the clean-up all inside the model (`constructT` = the LL model's
+constructor steps + template expansion + `StdCleanuper.make` on the model's own factorised dictionary; `LL.run`;
+`toVal`; `cleanup`): for the grammar `E -> VALUE`, `VALUE -> WORD | LIST | MAP`, `LIST = ListProds('[','VALUE',',',']')`,
+`MAP = MapProds('{','WORD',':','VALUE',',','}')` with default options and **both** `smart_factorization` values (`True`,
+the default: the table is not LL(1), `[ ]` / `[ v … ]` and `, v …` / `,` are resolved by roll-back; `False`: LL(1) with
+helper symbols `X__S00` spliced away), for **every** written value `s` (words, lists, maps, any depth, final delimiters
+wherever allowed) and every lexeme list `raw` that consists of the tokens of `s` with blank lexemes anywhere: the
+constructed parser accepts, `parse(text, do_cleanup=False)` is the derivation tree of `s`, and `parse(text)` is the root
+`E` with one child whose entry value is exactly `pyval (data s)` (Python list / dict / str, items in order, last value of a
+repeated key at its first position, final delimiters adding nothing).
+Missing for the full statement: other grammars / option combinations (covered on the clean-up side by `list_items`,
+`map_items`, `nesting`, … for all options and on the parse side by the differential run of this same model pipeline
+against the real parser), comments, and the regular-expression lexing itself (the lexemes are data). -/
+theorem end_to_end_json_partial (smart : Bool) (T : TParser) (hT : jsonT smart = .ok T) (s : Syn)
+    (raw : List (Name × List Char)) (hraw : Lex raw (toksV s)) :
+    ∃ (k : Nat) (r : El × Bool), entry r.1 = pyval s.data ∧ ∀ fuel, k ≤ fuel →
+      T.parseRaw raw fuel = .ok (.elem (nm "E") false (.list [toValP (utV s)])) ∧
+      T.parseClean raw fuel = .ok (.elem (nm "E") false (.list [r.1.toVal])) :=
+  json_end_to_end smart T hT s raw hraw
+
 /-- **Squashing around container items.** A squashable symbol (all its rules have at most one symbol) that is not
 in `keep_symbols` disappears around a container item: cleaning `name[x]` with `for_container=True` is cleaning `x`
 (so chains such as `LIST_ITEM[VALUE[WORD]]` collapse to the innermost element, whose value becomes the entry). A kept
@@ -251,6 +275,29 @@ theorem no_exceptions (cl : Cleanuper) (P : Prods) (hT : TplOK cl P) (t : Val)
     (hw : wellTyped cl t = true) (hc : conforms P t = true) (fc fch : Bool) :
     (∃ r, cleanup cl t fc fch = .ok r) ∨ cleanup cl t fc fch = .error .typeError :=
   cleanup_fine cl P hT (sizeOf t + 1) t (Nat.lt_succ_self _) hw hc fc fch
+
+/-- **Every symbol given to a template is honoured, wherever `AnyTokenExcept` stands.** `ProdSequence(*args)`: the
+element productions are, in order, one one-symbol production per explicit symbol and, in place of the (single)
+`AnyTokenExcept(*excluded)`, one per terminal that is not excluded — nothing listed before or after the pseudo-item is
+lost. The same for a list of productions of an ordinary symbol (`_make_prod_rules_list`, e.g. the item symbol of a
+list): `None`, tuples and the expansion of `AnyTokenExcept` in the order written. -/
+theorem any_token_except (terminals : List Name) :
+    (∀ args out res, seqSymbols terminals args = .ok out →
+      out = args.flatMap (SymArg.denote terminals) ∧ (∀ s, SymArg.sym s ∈ args → s ∈ out) ∧
+      lookup (seqGenProds res out) (res ++ seqElemSuffix) = some (out.map fun s => [s])) ∧
+    (∀ prods seen out, prodRules terminals prods seen = .ok out →
+      out = prods.flatMap (ProdArg.denote terminals) ∧ (∀ p, ProdArg.tuple p ∈ prods → p ∈ out)) := by
+  refine ⟨fun args out res h => ?_, fun prods seen out h => ?_⟩
+  · have e := seqSymbols_ok h
+    refine ⟨e, ?_, lookup_seqGenProds_elem res out⟩
+    intro s hs
+    rw [e]
+    exact List.mem_flatMap.mpr ⟨_, hs, by simp [SymArg.denote]⟩
+  · have e := prodRules_ok h
+    refine ⟨e, ?_⟩
+    intro p hp
+    rw [e]
+    exact List.mem_flatMap.mpr ⟨_, hp, by simp [ProdArg.denote]⟩
 
 /-- **Squash data** (`StdCleanuper._make_squash_data`): the squash symbols are the non-suffix symbols of `prods_map`
 (in its order) all of whose rules have at most one symbol; the choice symbols are those among them with more than one
@@ -378,5 +425,42 @@ example : TokOK exG (vw "a") := by
   · simp [exG] at e
     obtain ⟨rfl, rfl⟩ := e
     exact ⟨rfl, _, rfl⟩
+
+/-- `MapProds('{', 'WORD', '=', 'WORD', ',', '}')`: key symbol = value symbol (the positions of key and value in a pair
+are fixed, 0 and 2; `map_items` has no hypothesis about these symbols). Raw tree of `{x = y, x = z}`. -/
+private def exM2 : MapOpts :=
+  ⟨some "{".toList, "WORD".toList, "=".toList, "WORD".toList, ",".toList, some "}".toList, false, true, "M".toList⟩
+private def kv2 (k v : String) : Val := gnd "M" kvPairSuffix [tok "WORD" k, tok "=" "=", tok "WORD" v]
+example : exM2.WF := by constructor <;> decide
+example : cleanup { templates := [("M".toList, .map exM2)], choice := [], keep := [], squash := [] }
+    (nd "M" [tok "{" "{", kv2 "x" "y", gnd "M" kvTailSuffix [tok "," ",", kv2 "x" "z",
+      .elem ("M".toList ++ kvTailSuffix) true .none], tok "}" "}"]) false false =
+    .ok (("M".toList, true, .dict [(.str "x".toList, .str "z".toList)]), false) := by rfl
+example : seqSymbols ["W".toList, "[".toList, "]".toList]
+    [.anyExcept ["[".toList, "]".toList], .sym "LIST".toList, .sym "MAP".toList] =
+    .ok ["W".toList, "LIST".toList, "MAP".toList] := by decide
+
+/-- the constructor model accepts the json grammar (both settings), and the kernel runs the whole path on `[a, {k: b},]` -/
+example : (match jsonT true with | .ok _ => true | .error _ => false) = true := by decide +kernel
+example : (match jsonT false with | .ok _ => true | .error _ => false) = true := by decide +kernel
+private def exRaw : List (Name × List Char) :=
+  [(nm "[", nm "["), (nm "WORD", nm "a"), (nm ",", nm ","), (nm "SPACE", nm " "), (nm "{", nm "{"), (nm "WORD", nm "k"),
+   (nm ":", nm ":"), (nm "WORD", nm "b"), (nm "}", nm "}"), (nm ",", nm ","), (nm "]", nm "]")]
+example : Lex exRaw (toksV (.list [.word (nm "a"), .map [(nm "k", .word (nm "b"))] false] true)) := by
+  simp only [toksV, toksTail, toksElems, exRaw]
+  exact .tok (tk "[") (.tok ⟨sy "WORD", nm "a"⟩ (.tok (tk ",") (.space _ (.tok (tk "{") (.tok ⟨sy "WORD", nm "k"⟩
+    (.tok (tk ":") (.tok ⟨sy "WORD", nm "b"⟩ (.tok (tk "}") (.tok (tk ",") (.tok (tk "]") .nil))))))))))
+example : (match jsonT false with
+    | .ok T => (match T.parseClean exRaw 1000 with
+        | .ok (.elem _ _ (.list [.elem _ true (.list [.str a, .dict [(.str k, .str b)]])])) =>
+          decide (a = nm "a" ∧ k = nm "k" ∧ b = nm "b")
+        | _ => false)
+    | .error _ => false) = true := by decide +kernel
+example : (match jsonT true with
+    | .ok T => (match T.parseClean exRaw 1000 with
+        | .ok (.elem _ _ (.list [.elem _ true (.list [.str a, .dict [(.str k, .str b)]])])) =>
+          decide (a = nm "a" ∧ k = nm "k" ∧ b = nm "b")
+        | _ => false)
+    | .error _ => false) = true := by decide +kernel
 
 end C05
